@@ -43,8 +43,7 @@ def run(ctx):
     ctx.step(common.witnesses, ctx, "C05.witness", ["C05"])
 
 
-def register(ctx):
-    rid = "C05.register"
+def register(ctx, rid="C05.register"):
     ctx.rule(rid, "handles register before handing out the list and unregister iff registered; the log record is "
              "complete (owner, next) before the CAS publishes it", floor=16)
     fb = ctx.fb
